@@ -194,6 +194,15 @@ func c04Prop(c *sim.Case) {
 		at := sim.Pick(c, "early.at", len(ops)+1)
 		ops = append(ops[:at:at], append(pre, ops[at:]...)...)
 	}
+	if sim.Weighted(c, "crowded-pending", 5, 1) == 1 {
+		// a login that was started and left pending while dozens of others start theirs; then the callback of the most
+		// recent of those arrives under the cookie of the old pending session (and the old login is then completed, too)
+		b := sim.Pick(c, "cp.b", 3)
+		pre := []op{{K: "nav", B: b, Target: "/old"}, {K: "authorize", B: b},
+			{K: "crowd", B: b, B2: 1, N: 4 + sim.Tail(c, "cp.n", 10, 44), Arg: sim.PickStr(c, "cp.mode", "pending", "pending", "full", "start")}, {K: "callback", B: b}}
+		at := sim.Pick(c, "cp.at", len(ops)+1)
+		ops = append(ops[:at:at], append(pre, ops[at:]...)...)
+	}
 	if sim.Weighted(c, "cross-session-callback", 3, 1) == 1 {
 		// browser b's pending callback arrives in ANOTHER browser, whose cookie header also carries b's session id under
 		// a name that merely resembles the session cookie's
